@@ -49,6 +49,9 @@ def stream_jobs(rng, sc, tier, ev):
     else:
         plens += [rng.randrange(1024, 255 * 1024) for _ in range(6)] + [255 * 1024 - 1, 256 * 1024 - 30, 256 * 1024 + 5, 256 * 1024 + 40]
     cases = [("plain%d" % n, clean_prefix(rng, n)) for n in plens] + [("decoy%d" % i, decoy_prefix(rng)) for i in range(10 if tier == "quick" else 80)]
+    # a first header that carries a method signature but is otherwise impossible (level byte 4, 0x10, 0xFF; length byte 0): the scan
+    # goes by the signature alone, at every position of the header in the 24-byte window
+    damaged = [("damaged%d_%d" % (n, k), clean_prefix(rng, n), k) for n in (range(0, 26) if tier == "quick" else range(0, 50)) for k in (n % 4,)]
     # the corpus itself, self-extractors first: the scan of real stubs (DECLHA, LhASFX, PMarc -pms-)
     corp = sorted(f for f in glob.glob(os.path.join(V.REPO, "test", "archives", "*", "*")) if os.path.isfile(f) and not f.endswith("README"))
     sfx = [f for f in corp if is_sfx(f)]
@@ -61,8 +64,16 @@ def stream_jobs(rng, sc, tier, ev):
         open(g, "w").write(json.dumps({"e": "Reset", "kind": kind, "data": list(data), "case": os.path.basename(f)}, separators=(",", ":")) + "\n")
         jobs.append("stream %s %s %s 0 R22,R2,R100,R1" % (g, f, kind))
         ev.cls(("stream-corpus", os.path.basename(f), kind))
-    for ci, (tag, pre) in enumerate(cases):
+    for ci, case in enumerate(cases + damaged):
+        tag, pre = case[0], case[1]
         body = b"".join(m.raw() for m in ms[ci % 3:] + ms[:ci % 3]) + b"\0"
+        if len(case) > 2:
+            bb = bytearray(body)
+            if case[2] == 3:
+                bb[0] = 0
+            else:
+                bb[20] = (4, 0x10, 0xFF)[case[2]]
+            body = bytes(bb)
         data = pre + body
         df = os.path.join(sc, "s%d.bin" % ci)
         open(df, "wb").write(data)
